@@ -27,6 +27,10 @@ import CijProofs.Lemmas.ShearSource
 import CijProofs.Lemmas.ModeGammaSource
 import Generated.FullModulusSpec
 import Generated.ReadersSpec
+import Generated.DefaultSettings
+import Generated.CalcGlueSpec
+import CijModel.Config
+import CijModel.CalcGlue
 
 namespace Cij.C12
 open Cij Cij.QExpr Cij.Cls Filter Topology
@@ -199,5 +203,19 @@ theorem c12_readers_are_source :
     Generated.Readers.rowVolumeIndex = 0 ∧ Generated.Readers.rowKeySlice = 1 ∧ Generated.Readers.rowValueSlice = 1 ∧
     ("read_energy", "qha_input", "read_energy") ∈ Generated.Readers.packageImports ∧
     ("read_elast_data", "elast_dat", "read_elast_data") ∈ Generated.Readers.packageImports := by decide
+
+/-- **every valid configuration completes: the packaged defaults supply what the calculator reads.**  The configuration leaves that
+`Calculator` reads by subscript — the paths translated from calculator.py on this run (`_interpolate_modes`: interpolator and order;
+`_apply_elastic_constants_symmetry`: the symmetry block; `write_output`: the output section) — all exist in the packaged default settings
+as translated on this run, the default order being a number: a schema-valid file that leaves them out still gets them from the merge
+(C16), so no `KeyError`/`None` reaches the interpolators. -/
+theorem c12_defaults_supply_calculator_reads :
+    (Cij.Config.get Generated.defaultSettings Generated.CalcGlue.interpolateModes.methodPath).isSome = true ∧
+    (match Cij.Config.get Generated.defaultSettings Generated.CalcGlue.interpolateModes.orderPath with
+      | some (.num _ _ _) => true | _ => false) = true ∧
+    (match Cij.Config.get Generated.defaultSettings Generated.CalcGlue.symmetrySpec.path with
+      | some (.obj _) => true | _ => false) = true ∧
+    (match Cij.Config.get Generated.defaultSettings Generated.CalcGlue.writeOutputPath with
+      | some (.obj _) => true | _ => false) = true := by decide
 
 end Cij.C12
